@@ -147,6 +147,15 @@ RecreatePod(i) ==
   /\ sc' = [sc EXCEPT ![i] = Fresh(clock)]
   /\ UNCHANGED <<nsh, disc, size, alive, est, clock, envs, cyc, kvars>>
 
+\* a targets update that is not from this coordinator's running cycle reaches shard i: the rest of a cycle of a
+\* coordinator that crashed between two requests, a second coordinator instance, an operator.  P: set of [t, state]
+PlaceSeq(P) == AssignSeq({[t |-> p.t, state |-> p.state, series |-> IF est[p.t].known THEN est[p.t].series ELSE 0] : p \in P})
+ForeignUpdate(i, P) ==
+  /\ pc = "idle" /\ i <= nsh /\ faults < FaultBudget /\ faults' = faults + 1
+  /\ sc' = [sc EXCEPT ![i] = CapTimes(S!Update(WithClock(sc[i]), PlaceSeq(P)))]
+  /\ UNCHANGED <<nsh, disc, size, alive, est, clock, envs, cyc, kvars>>
+Placements == UNION {{ {[t |-> t, state |-> f[t]] : t \in D} : f \in [D -> {"", "in_transfer"}]} : D \in SUBSET Targets}
+
 KInit ==
   /\ nsh = 1 /\ clock = 0 /\ faults = 0 /\ envs = 0 /\ cyc = CycIdle
   /\ sc = [i \in 1..MaxN |-> Fresh(0)]
@@ -164,6 +173,7 @@ OneFault ==
 KNext ==
   \/ \E f \in {NoFaults} \cup (IF faults < FaultBudget THEN OneFault ELSE {}) : StartCycle(f)
   \/ (\E i \in 1..MaxN : RestartSidecar(i) \/ RecreatePod(i)) \/ ShrinkByOne
+  \/ (\E i \in 1..MaxN, P \in Placements : ForeignUpdate(i, P))
   \/ CycleStep \/ EndCycle
   \/ \E i \in 1..MaxN : ScrapeRound(i)
   \/ Tick \/ (\E t \in Targets : Probe(t)) \/ EnvChange
